@@ -21,6 +21,8 @@ NewCmds(S) == IF S = {} THEN << >> ELSE LET c == CHOOSE x \in S : TRUE IN << New
 CmdOf(o, k) ==
     CASE o.op = "process" -> [op |-> "process", ctx |-> o.c, p |-> o.p, rbuf_len |-> 64 + (k % 3), poison |-> (k * 37 + 90) % 256]
       [] o.op = "decode"  -> [op |-> "decode", ctx |-> o.c, p |-> o.p]
+      [] o.op = "enc_resp" -> [op |-> "enc_resp", ctx |-> o.c, name |-> o.arg, args |-> EncArgs(o.arg),
+                               buf_len |-> 24 + (k % 5), poison |-> (k * 13 + 5) % 256]
       [] o.op = "get_length" -> [op |-> "get_length", ctx |-> o.c, p |-> o.p]
       [] o.op = "set_eid_req"  -> [op |-> "set_eid", ctx |-> o.c, half |-> "req", eid |-> o.arg]
       [] o.op = "set_eid_resp" -> [op |-> "set_eid", ctx |-> o.c, half |-> "resp", eid |-> o.arg]
